@@ -5,7 +5,7 @@ CONSTANTS NS, N1S, N2S, B, SEED, NSHARD
 VARIABLES c
 vars == <<c>>
 V3(x, y, z) == <<x, y, z>>
-Centres == { V3(0, 0, 0), V3(1, -2, 3), V3(-3, 1, 0) }
+Centres == { V3(0, 0, 0), V3(1, -2, 3), V3(-3, 1, 0), V3(-2, 0, 0), V3(0, -2, 0), V3(0, 0, -2) }
 Radii   == { <<1, 2>>, <<1, 1>>, <<3, 2>>, <<5, 1>>, <<31, 4>> }
 AxisDirs    == DirsOf(1) \cup { V3(2, 3, 6), V3(1, 2, 2), V3(40, 1, 0), V3(-40, 0, 1), V3(0, 1, -40), V3(1, 2, -1) }
 Trip    == { t \in DirsOf(1) \X DirsOf(1) \X DirsOf(1) : Det3(t[1], t[2], t[3]) # 0 }
